@@ -119,18 +119,16 @@ DecstbmOK(t, fn, u, dr) ==
 ShiftUpOK(t, u, a, b, k) ==
   \A r \in 0..(t.rows - 1) :
     IF r < a \/ r > b THEN /\ RowCellsSame(t, u, r)
-                           /\ (r # a - 1 => VRow(u, r).w = VRow(t, r).w)
-                           /\ (r = a - 1 => ~VRow(u, r).w)            \* continuity broken
+                           /\ (r # a - 1 => VRow(u, r).w = VRow(t, r).w)     \* the row just above the range: silent point
     ELSE IF r <= b - k THEN /\ VRow(u, r).c = VRow(t, r + k).c
                             /\ (r + k # b => VRow(u, r).w = VRow(t, r + k).w)
     ELSE VRow(u, r) = BlankLine(t.cols, t.pen)
 ShiftDownOK(t, u, a, b, k) ==
   \A r \in 0..(t.rows - 1) :
     IF r < a \/ r > b THEN /\ RowCellsSame(t, u, r)
-                           /\ (r # a - 1 => VRow(u, r).w = VRow(t, r).w)
-                           /\ (r = a - 1 => ~VRow(u, r).w)            \* continuity broken
+                           /\ (r # a - 1 => VRow(u, r).w = VRow(t, r).w)     \* the row just above the range: silent point
     ELSE IF r >= a + k THEN /\ VRow(u, r).c = VRow(t, r - k).c
-                            /\ (IF r = b THEN ~VRow(u, r).w ELSE VRow(u, r).w = VRow(t, r - k).w)
+                            /\ (r # b => VRow(u, r).w = VRow(t, r - k).w)          \* the new last row of the range: silent point
     ELSE VRow(u, r) = BlankLine(t.cols, t.pen)
 (* Rows scrolled off the top of a range that begins at the first row of the      *)
 (* primary screen are appended to the scrollback unchanged and in order.         *)
